@@ -196,6 +196,17 @@ def catalogue(tier, seed):
         add("post", [zspec(name="z0", relays=[dict(kind="outline-badtxn", when="connected")], expect="ban", hangup="relay-"),
                      zspec(name="z1", view="planted", expect="ban", hangup="blk-")])
 
+    # ---- two-phase fork: the Byzantine peer's heavier chain forks off BELOW the require height; an invalid block (valid header /
+    # PoW / payout, wrong commitment or a money-creating transaction) sits inside the first 100-header request, which alone is
+    # NOT heavier than the victim's tip (AddBlocks stores it header-only, nothing is validated); the chain continues, built AS IF
+    # that block were valid, far past the require height, so the second request goes through SendCheckpoint + pre-validation +
+    # AddValidatedV2Blocks and tips the total work over.  The reorg must fail at the invalid block and the victim must keep the
+    # tip it had (WorkMonotone, AlwaysValid); the peer is banned.
+    for kind, pos in ([("commitment-asif", 9)] if not thorough else [("commitment-asif", 9), ("badtxn-asif", 0), ("commitment-asif", 60), ("badtxn-asif", 94)]):
+        add("mid", [zspec(view="fork", forkLen=150, badAt=pos, badKind=kind, expect="ban")], victimLen=130, honestLen=132, deadline=60000)
+    if thorough:
+        add("mid", [zspec(view="fork", forkLen=150, badAt=9, badKind="commitment-asif", expect="ban", dials=True)], victimLen=130, honestLen=132, deadline=60000, order="together")
+
     # ---- ID twin, poison-then-heal: the victim sits on its own fork; the Byzantine peer holds only a PREFIX of the honest
     # fork (still lighter, at heights <= the victim's tip) and serves it through the AddBlocks path with one v2 block's
     # body swapped under the honest header (same id).  Stored header-valid, no reorg, no ban.  When the honest peer later
@@ -237,7 +248,8 @@ def catalogue(tier, seed):
 # ------------------------------------------------------------------ legs
 
 def leg_m_jobs(tier):
-    jobs = [("SyncMC", "Sync_byz_twin.cfg", "Sync byzantine ID twin (honest header, swapped body) served from a lighter fork prefix: healed by honest re-delivery, culprit banned: safety + HonestProgress", 4, 900),
+    jobs = [("SyncMC", "Sync_byz_asif.cfg", "Sync byzantine two-phase fork (invalid block stored header-only, descendants built as if it were valid delivered pre-validated): safety + HonestProgress", 4, 900),
+            ("SyncMC", "Sync_byz_twin.cfg", "Sync byzantine ID twin (honest header, swapped body) served from a lighter fork prefix: healed by honest re-delivery, culprit banned: safety + HonestProgress", 4, 900),
             ("SyncMC", "Sync_byz_plant.cfg", "Sync byzantine plant-then-serve (two Byzantine peers; a rejected block's stored state is not 'validated'): safety + HonestProgress", 4, 900),
             ("SyncMC", "Sync_byz_quick.cfg", "Sync byzantine (victim + honest + Byzantine peer, 8-block tree): safety + HonestProgress", 6, 1500)]
     if tier == "thorough":
@@ -409,7 +421,8 @@ def selftest():
     good = x.exit != 0 and "HonestProgress was violated" in (x.error or "") + x.out
     log("selftest 3 (model whose AddBlocks skips re-delivered stored blocks at or below the tip: the twin is never healed, HonestProgress violated): %s" % ("ok" if good else "FAILED"))
     ok3 = ok3 and good
-    for cfg, inv, what in (("Sync_byz_hangup_dev.cfg", "ProvableMisbehaviourBanned", "model whose ban is skipped for a peer that hung up before the verdict"),
+    for cfg, inv, what in (("Sync_byz_asif_dev.cfg", "WorkMonotone", "model whose failed AddValidatedV2Blocks reorg rolls back to the batch base instead of the old tip"),
+                           ("Sync_byz_hangup_dev.cfg", "ProvableMisbehaviourBanned", "model whose ban is skipped for a peer that hung up before the verdict"),
                            ("Sync_byz_twin_coworker_dev.cfg", "NoHonestBan", "model that bans the peer of the batch being added instead of the peer that served the invalid block"),
                            ("Sync_byz_ckptcount_dev.cfg", "NeverPanics", "model whose SendCheckpoint does not check the payout count: the victim process dies"),
                            ("Sync_byz_ckptvalue_dev.cfg", "AlwaysValid", "model whose SendCheckpoint does not bind the payout value: pre-validation is void")):
